@@ -188,7 +188,32 @@ def rule_feas_cost(repo, tier):
         elif isinstance(st, ast.Assign) and any(isinstance(t, ast.Name) and 'cost' in t.id for t in st.targets):
             cost_terms.append((subst(st.value, env), st))
     if not cost_terms:
-        raise AnalysisError('C14.COST: cost accumulation not found in the roll-out loop')
+        # vectorised form after the roll-out: cost = sum_t 0.5 z_t^T Q_t z_t + p_t^T z_t with z = cat(x[..., :-1, :], u): the states paired with
+        # u_0 .. u_{T-1} are x_0 .. x_{T-1}, i.e. the stored trajectory WITHOUT its last entry
+        whole = inline_straight(f.node)
+        post = [st for st in f.node.body if isinstance(st, ast.Assign) and any(isinstance(t, ast.Name) and 'cost' in t.id for t in st.targets)
+                and not (isinstance(st.value, ast.Call) and dotted(st.value.func) in ('torch.zeros', 'torch.zeros_like', 'torch.empty'))]
+        if not post:
+            raise AnalysisError('C14.COST: cost accumulation not found in the roll-out loop')
+        for st in post:
+            term = whole.value(st.value)
+            cats = [n for n in ast.walk(term) if isinstance(n, ast.Call) and dotted(n.func) in ('torch.cat', 'torch.concat')]
+            ok = bool(cats)
+            why = 'no (x, u) pair'
+            for cat in cats:
+                el = cat.args[0].elts if cat.args and isinstance(cat.args[0], (ast.Tuple, ast.List)) else []
+                xs = el[0] if len(el) == 2 else None
+                sl = _time_index(xs.slice) if isinstance(xs, ast.Subscript) else None
+                good = isinstance(sl, ast.Slice) and (sl.lower is None or (isinstance(sl.lower, ast.Constant) and sl.lower.value == 0)) and sl.step is None and \
+                    sl.upper is not None and (src(sl.upper).replace(' ', '') in ('-1', 'self.T'))
+                if not good:
+                    ok = False
+                    why = 'the states paired with u_0..u_{T-1} are `%s`' % (src(xs)[:40] if xs is not None else '?')
+            res.inst({'function': f.fq, 'clause': 'vectorised cost pairs (x_0..x_{T-1}, u_0..u_{T-1})', 'ok': ok})
+            if not ok:
+                res.add(Finding('C14.COST', f, 'the reported cost is not the cost of the returned trajectory: %s; the stage cost of step t is taken at (x_t, u_t), '
+                                'the state BEFORE u_t is applied, i.e. x[..., :-1, :]' % why, node=st, construct='vectorised cost pairs the wrong states'))
+        return res
     want_pair = ast.Call(ast.Attribute(ast.Name('torch', ast.Load()), 'cat', ast.Load()), [ast.Tuple([xa, ua], ast.Load())], [])
     for term, st in cost_terms:
         tis = set()
@@ -460,11 +485,53 @@ def rule_dyn(repo):
     return r
 
 
+@guarded
+def rule_horizon(repo, tier):
+    """LQR accepts a shared cost term ([B, n, n] / [B, n]) or a time-varying one ([B, T, n, n] / [B, T, n]) for Q and p INDEPENDENTLY and expands the
+    shared ones along the horizon.  Each expansion is decided by the rank of the tensor it expands: an expansion of p nested under the rank test
+    of Q leaves a shared p un-expanded whenever Q is already time-varying (and vice versa), and the constructor rejects a documented combination."""
+    res = RuleResult('C14.HORIZON', 'LQR.__init__: every horizon expansion (tile / expand / repeat of self.Q or self.p) is guarded by a rank test of the '
+                     'very tensor it expands, so the shared / time-varying forms of Q and p can be mixed', floor=2)
+    f = repo.func(LQR, 'LQR.__init__')
+
+    def subjects(t):
+        out = set()
+        for n in ast.walk(t):
+            if isinstance(n, ast.Attribute) and n.attr == 'ndim':
+                out.add(dotted(n.value) or src(n.value))
+            if isinstance(n, ast.Call) and isinstance(n.func, ast.Attribute) and n.func.attr in ('dim', 'ndimension') and not n.args:
+                out.add(dotted(n.func.value) or src(n.func.value))
+        return out
+
+    def visit(body, guards):
+        for st in body:
+            if isinstance(st, ast.If):
+                visit(st.body, guards + [subjects(st.test)])
+                visit(st.orelse, guards + [subjects(st.test)])
+            elif isinstance(st, ast.Assign):
+                for tg in st.targets:
+                    d = dotted(tg)
+                    if d in ('self.Q', 'self.p') and any(isinstance(c, ast.Call) and (dotted(c.func) or '').split('.')[-1] in ('tile', 'expand', 'repeat', 'repeat_interleave', 'broadcast_to')
+                                                        for c in ast.walk(st.value)):
+                        gs = set().union(*guards) if guards else set()
+                        ok = gs == {d}
+                        res.inst({'function': f.fq, 'expansion': src(st)[:70], 'guarded by the rank of': sorted(gs), 'own rank': ok}, (d, src(st)[:70]))
+                        if not ok:
+                            res.add(Finding('C14.HORIZON', f, 'the horizon expansion `%s` is decided by the rank of %s, not by the rank of %s itself: a shared %s together '
+                                            'with a time-varying %s is left un-expanded (or a time-varying one is expanded twice) and the documented mixed form fails'
+                                            % (src(st)[:60], sorted(gs) or 'nothing', d, d.split('.')[1], 'p' if d.endswith('Q') else 'Q'), node=st,
+                                            construct='expansion of %s under %s' % (d, sorted(gs))))
+            elif isinstance(st, (ast.For, ast.While, ast.With, ast.Try)):
+                visit(getattr(st, 'body', []), guards)
+    visit(f.node.body, [])
+    return res
+
+
 def _rules_core(repo, tier):
     from ..stale import rule_stale
     from ..effects import rule_pure
     from ..fresh import rule_fresh
-    return [rule_pure(repo, 'C14.PURE', 'LQR / MPC do not write in place into x_init, the nominal input trajectory or the cost tensors they are given',
+    return [rule_horizon(repo, tier), rule_pure(repo, 'C14.PURE', 'LQR / MPC do not write in place into x_init, the nominal input trajectory or the cost tensors they are given',
                       [(LQR, 'LQR.forward'), (LQR, 'LQR.lqr_backward'), (LQR, 'LQR.lqr_forward'), ('pypose.module.mpc', 'MPC.forward'),
                        ('pypose.module.dynamics', 'runsys'), ('pypose.module.dynamics', 'toBTN')]),
             rule_fresh(repo, 'C14.FRESH', 'the roll-out buffers and the cost accumulator of a solve are allocated by that solve: nothing written in place '
